@@ -150,6 +150,13 @@ Fixpoint run_v (c : cfg) (st : state) (evs : list event) : list (state * bool) *
       end
   end.
 
+(** the state after a history ([None]: an operation threw) *)
+Fixpoint final_v (c : cfg) (st : state) (evs : list event) : option state :=
+  match evs with
+  | [] => Some st
+  | e :: r => match step_v c st e with Ok (st', _) => final_v c st' r | _ => None end
+  end.
+
 End Variant.
 
 Definition step := step_v fixed.
@@ -157,9 +164,8 @@ Definition run := run_v fixed.
 Definition step_pinned := step_v pinned.
 Definition run_pinned := run_v pinned.
 
-(** the state after a history ([None]: an operation threw) *)
-Fixpoint final (c : cfg) (st : state) (evs : list event) : option state :=
-  match evs with
-  | [] => Some st
-  | e :: r => match step c st e with Ok (st', _) => final c st' r | _ => None end
-  end.
+Definition final := final_v fixed.
+Definition final_pinned := final_v pinned.
+
+(** the generation files 0 .. n-1 *)
+Definition snapshot (n : nat) (st : state) : list (option file) := map (sfs st) (seq 0 n).
